@@ -263,6 +263,22 @@ pub fn family(flavour: &str) -> Vec<Prog> {
       }
     }
   }
+  // --- timed parking (README "Timed parking"): the consumer parks in the TIMED receive on an empty channel, the
+  // producer sends cap+1 items (the first wakes the consumer, the rest fill the ring, the last parks the producer);
+  // every decision also offers "fire the consumer's timeout"
+  if !f.asyn && !f.oneshot {
+    let n = if f.rdv || f.unbounded { 1 } else { cap.min(1) + 1 };
+    let tcap = if cap > 0 { 1 } else { 0 };
+    for (tag, second) in [("alone", None), ("then-try_recv", Some("try_recv"))] {
+      let mut ids = Ids(0);
+      let mut t1 = vec![op(&["recv_timeout", "r0"])];
+      if let Some(x) = second {
+        t1.push(op(&[x, "r0"]));
+      }
+      let t2: Vec<Op> = (0..n).map(|_| op(&["send", "s0", &ids.next()])).collect();
+      out.push(Prog { flavour: flavour.to_string(), cap: tcap, core: true, tag: format!("timed-park-{}", tag), programs: vec![Vec::new(), t1, t2] });
+    }
+  }
   out
 }
 
